@@ -44,7 +44,7 @@ def gen_trace(seed, n_calls=45):
     evs = []
     gross = {}
     with ob.installed():
-        rig = BrokerRig(t0, quotes, fee, ob, printing=(seed % 4 == 3))       # a quarter of the traces with event printing ON
+        rig = BrokerRig(t0, quotes, fee, ob, printing=(seed % 4 == 3), ctor_funds=(seed % 3 == 1))       # a quarter of the traces with event printing ON
         now = t0
         created = []
 
@@ -159,12 +159,12 @@ def gen_big_trace(seed):
     return tr
 
 
-def record_calls(ident, t0, quotes, fee, calls, printing=False):
+def record_calls(ident, t0, quotes, fee, calls, printing=False, ctor_funds=False):
     """Drive the real classes with a given call sequence and record the trace (used by --replay)."""
     ob = Observer()
     evs = []
     with ob.installed():
-        rig = BrokerRig(t0, quotes, fee, ob, printing=printing)
+        rig = BrokerRig(t0, quotes, fee, ob, printing=printing, ctor_funds=ctor_funds)
         for c in calls:
             evs.append(rig.apply(dict(c)))
     return dict(id=ident, t0=t0, quote=quotes, fee=fee,
